@@ -21,6 +21,9 @@ UNIT_CATS = ('convert-from-unit', 'sum-mix', 'add-units', 'to-storage', 'from-st
 
 
 def run(ctx):
+    # contents are keyed by Substance objects: the key laws this property's bookkeeping relies on
+    from .identity import identity_discipline as _identity
+    _identity(ctx, 'C11.R1', classes=('Substance',), memoised=False)
     model = ctx.model
     # capacity is enforced inside the add both operations go through (C03.R1 on _self_add)
     from .c03 import capacity_gates
